@@ -94,7 +94,7 @@ func muxGen(focus string) func(rng *rand.Rand, conf string, idx int) any {
 			}
 			nf := 1 + rng.Intn(2)
 			for i := 0; i < nf; i++ {
-				f := MuxFault{Kind: pick(rng, []string{"cut", "cut", "kill", "close-mux", "close-mux", "close-conn", "overflow"}), End: rng.Intn(2)}
+				f := MuxFault{Kind: pick(rng, []string{"cut", "cut", "kill", "close-mux", "close-mux", "close-conn", "overflow", "stall-close", "partial-write"}), End: rng.Intn(2)}
 				f.After = rng.Intn(total + 1)
 				f.ID = pick(rng, w.IDs)
 				f.Off = rng.Intn(40 + 30*total)
@@ -303,6 +303,34 @@ func muxRun(t *testing.T, wl any, sc SchedCfg) *Result {
 								e.Task(fmt.Sprintf("conncloser-%d", i), func() { c.Close(); c.Close() })
 							}
 						}
+					}})
+			case "partial-write":
+				// the write by end f.End that crosses f.Off bytes is partial and fails (peer died mid-write)
+				c := ta
+				if f.End == 1 {
+					c = tb
+				}
+				c.FailWriteAt(f.Off)
+			case "stall-close":
+				// end f.End's peer stops draining: its trunk writes block; later that end is closed
+				c := ta
+				if f.End == 1 {
+					c = tb
+				}
+				e.S.Add(&simItem{Key: fmt.Sprintf("fault:%d:stall", i), Owner: "fault",
+					Ready: func() bool { return totalFrames >= f.After },
+					Fire: func(int) {
+						c.StallWrites(true)
+						e.S.Probe("C11.fault.stall-close")
+						failed = true
+						// ... and once a writer is stuck (or nothing else happens) the stalled end is closed
+						e.S.Add(&simItem{Key: fmt.Sprintf("fault:%d:close-stalled", i), Owner: "fault", Last: true,
+							Fire: func(int) {
+								for n := 0; n < f.N; n++ {
+									n := n
+									e.Task(fmt.Sprintf("closer-%d-%d", i, n), func() { muxes[f.End].Close() })
+								}
+							}})
 					}})
 			case "overflow":
 				e.S.Add(&simItem{Key: fmt.Sprintf("fault:%d:resume", i), Owner: "fault",
